@@ -241,6 +241,15 @@ pub fn run_check(spec: &CheckSpec, tier: &str, seed: u64) -> i32 {
                 *other_props.entry(v.property.clone()).or_insert(0) += 1;
                 continue;
             }
+            // a C14 copy of a finding that the default build shows too (listed under its own
+            // property) is not a difference between builds
+            if v.property == "C14" {
+                if let Some((orig, rest)) = v.key.split_once(':') {
+                    if known.iter().any(|k| k.property == orig && k.key == rest) {
+                        continue;
+                    }
+                }
+            }
             if let Some(k) = known.iter().find(|k| k.property == v.property && k.key == v.key) {
                 let e = known_hits.entry(v.key.clone()).or_insert((k.text.clone(), 0));
                 e.1 += 1;
@@ -257,7 +266,7 @@ pub fn run_check(spec: &CheckSpec, tier: &str, seed: u64) -> i32 {
     let mut violation_lines = 0;
     let mut harness_error = false;
     let replays = verif_dir().join("replays");
-    let max_groups = 6;
+    let max_groups = 4;
     for (gi, (key, hits)) in fresh.iter().enumerate() {
         let (profile, idx, v) = &hits[0];
         if gi >= max_groups {
@@ -269,7 +278,7 @@ pub fn run_check(spec: &CheckSpec, tier: &str, seed: u64) -> i32 {
         let full = run_plan(&plan, true);
         let orig_path = replays.join(format!("{}.json", base));
         write_replay(&orig_path, v, &plan, &full.events);
-        let min_plan = shrink::minimise(&plan, &v.property, &v.key, 120);
+        let min_plan = shrink::minimise(&plan, &v.property, &v.key, 45);
         let min_rep = run_plan(&min_plan, true);
         let mv = min_rep.violations.iter().find(|x| x.property == v.property && x.key == v.key).cloned().unwrap_or_else(|| v.clone());
         let min_path = replays.join(format!("{}-min.json", base));
